@@ -641,11 +641,78 @@ def setter_field(facts, cls_methods, name):
     raise AnalysisBroken("setter %s: stored field not recognised" % name)
 
 
+def split_coverage(facts, res, fn):
+    """C07.3 (coverage): when the number of leaves a group takes depends on the leaves themselves (a cut moved to a parent boundary, a
+    size found by scanning), the number of groups cannot be fixed beforehand from the requested size: every shortened group leaves leaves
+    over, and a loop that runs ceil(leaves / size) times stops before they are consumed.  Such a split must be driven by what is left
+    (its loop condition or a break tests the running first leaf against the number of leaves) or give the remainder to the last group."""
+    R3 = "C07.3.block-bound"
+    b = tbf.body(fn)
+    tbf.link_parents(b)
+    loops = [f for f in walk(b) if f.get("k") == "ForStmt" and any(x.get("k") in ("CallExpr", "CXXMemberCallExpr") and tbf.callee_name(x) == "setNbCells" for x in walk(f))]
+    loops = [f for f in loops if not any(g is not f and any(y is g for y in walk(f)) for g in loops)]
+    if len(loops) != 1:
+        return False
+    loop = loops[0]
+    body = kids(loop)[-1]
+    decls = {v["did"]: v for v in walk(b) if v.get("k") == "VarDecl"}
+    # variables assigned inside a nested loop of the group loop, or from expressions that read the leaves
+    READS = ("getSpacialIndexForLeaf", "getParentIndex", "getSpacialIndexForParticle")
+    dd = set()
+    for inner in walk(body):
+        if inner.get("k") in ("WhileStmt", "ForStmt", "DoStmt") and inner is not loop:
+            datacond = any(y.get("k") in ("CallExpr", "CXXMemberCallExpr") and tbf.callee_name(y) in READS for y in walk(kids(inner)[0] if inner.get("k") == "WhileStmt" else inner))
+            if not datacond:
+                continue
+            for y in walk(inner):
+                if (y.get("k") == "UnaryOperator" and y.get("op") in ("++", "--")) or (y.get("k") in ("CompoundAssignOperator", "BinaryOperator") and y.get("op", "").endswith("=") and y.get("op") not in ("==", "!=", "<=", ">=")):
+                    t = strip(kids(y)[0])
+                    if t.get("k") == "DeclRefExpr":
+                        dd.add(t.get("did"))
+    changed = True
+    while changed:
+        changed = False
+        for y in walk(body):
+            if y.get("k") == "BinaryOperator" and y.get("op") == "=" and strip(kids(y)[0]).get("k") == "DeclRefExpr":
+                t = strip(kids(y)[0]).get("did")
+                if t not in dd and any(z.get("k") == "DeclRefExpr" and z.get("did") in dd for z in walk(kids(y)[1])):
+                    dd.add(t)
+                    changed = True
+            if y.get("k") == "VarDecl" and y.get("did") not in dd and kids(y) and any(z.get("k") == "DeclRefExpr" and z.get("did") in dd for z in walk(kids(y)[0])):
+                dd.add(y["did"])
+                changed = True
+    sizes = [x for x in walk(body) if x.get("k") in ("CallExpr", "CXXMemberCallExpr") and tbf.callee_name(x) == "setNbCells"]
+    dep = [x for x in sizes if any(z.get("k") == "DeclRefExpr" and z.get("did") in dd for z in walk(x))]
+    # the particle count of a group is found by scanning (it always was): only the LEAF count matters here
+    if not dep:
+        return False
+    cond = kids(loop)[1]
+    lv = [v["did"] for v in kids(kids(loop)[0]) if v.get("k") == "VarDecl"] if kids(loop)[0] is not None else []
+    assigned_in_loop = set()
+    for y in walk(body):
+        if y.get("k") in ("BinaryOperator", "CompoundAssignOperator") and y.get("op", "").endswith("=") and y.get("op") not in ("==", "!=", "<=", ">=") and strip(kids(y)[0]).get("k") == "DeclRefExpr":
+            assigned_in_loop.add(strip(kids(y)[0]).get("did"))
+        if y.get("k") == "VarDecl":
+            assigned_in_loop.add(y["did"])
+    driven = any(z.get("k") == "DeclRefExpr" and z.get("did") in assigned_in_loop and z.get("did") not in lv for z in walk(cond)) or \
+        any(z.get("k") in ("CallExpr", "CXXMemberCallExpr") and tbf.callee_name(z) in ("back", "size") for z in walk(cond))
+    breaks = [y for y in walk(body) if y.get("k") == "BreakStmt" and not any(a.get("k") in ("WhileStmt", "ForStmt", "DoStmt", "SwitchStmt") and a is not loop and any(q is a for q in walk(body)) for a in tbf.ancestors(y))]
+    res.instance(R3, "sorter split: coverage", facts.loc(loop), "the leaf count of a group depends on the leaves (%s); loop condition `%s` driven by what is left: %s; breaks: %d" % (facts.ntext(dep[0])[:50], facts.ntext(cond)[:50], driven, len(breaks)))
+    if not driven and not breaks:
+        res.violation(R3, tbf.rel(facts.path_of(loop)), fn["qname"], "split-coverage", loop["l"][1],
+                      "the number of leaves a group takes depends on the leaves themselves (`%s`), but the loop runs `%s` - a number of groups fixed beforehand: every group that ends early leaves leaves over, and the last ones (with their particles) end up in no group" % (facts.ntext(dep[0])[:60], facts.ntext(cond)[:60]))
+        return True
+    return False
+
+
 def sorter_split(facts, res):
     import sympy
     R3, R5 = "C07.3.block-bound", "C07.5.sorted-leaves"
     cls = "TbfParticleSorter"
     fn = method(facts, cls, "splitInGroups")
+    if split_coverage(facts, res, fn):
+        sort_key(facts, res)
+        return
     fm = stages.FnModel(facts, fn)
     gp = [m for m in facts.functions if not m.get("inst") and (m.get("clsq") or m.get("qname", "")).find("GroupProperty") >= 0]
     ffirst, fnb, fpfirst, fpnb = (setter_field(facts, gp, nm) for nm in ("setFirstCell", "setNbCells", "setFirstParticle", "setNbParticles"))
